@@ -321,6 +321,21 @@ def sc_accept_no_cer(w, n, kind):
     w.advance(6)
 
 
+def sc_garbage_then_closed(w, n, kind):
+    """connections on which bytes arrive that are no diameter message (length field 0, below the header size, or larger
+    than what follows), before or after the handshake, and that end - closed by the node or by the peer"""
+    junk = [bytes(20), b"\x01\x00\x00\x07" + bytes(16), b"\x01\x00\x00\x13" + bytes(20), bytes(41), b"\x01\x00\x00\x18" + b"\xff" * 20]
+    for i in range(n):
+        for established in (True, False):
+            c = w.handshake_in("peer1.example", auth=[4], hbh=0x3100 + i) if established else w.accept("10.1.1.1")
+            if c is None:
+                continue
+            w.feed(c, junk[i % len(junk)])
+            if not c.node_closed:
+                w.peer_close(c)
+    w.advance(2)
+
+
 def sc_nocommon(w, n, kind):
     for i in range(n):
         c = w.accept("10.1.1.1")
@@ -454,6 +469,7 @@ SCENARIOS = {
     "unknown-peer": (sc_unknown_peer, {}),
     "accept-no-cer": (sc_accept_no_cer, {}),
     "cer-no-common-app": (sc_nocommon, {}),
+    "garbage-then-closed": (sc_garbage_then_closed, {}),
     "dial-refused-sync": (sc_dial_sync_refused, {"dial": True}),
     "dial-failed-async": (sc_dial_async_fail, {"dial": True}),
     "dial-cea-rejected": (sc_dial_cea_rejected, {"dial": True}),
@@ -462,7 +478,7 @@ SCENARIOS = {
     "newcomers-while-stopping": (sc_newcomers_while_stopping, {}),
     "burst-then-node-close": (sc_burst_then_node_close, {}),
 }
-FAILING = {"rejected-requests", "outbound-request-timeout", "conn-reset", "unknown-peer", "accept-no-cer",
+FAILING = {"garbage-then-closed", "rejected-requests", "outbound-request-timeout", "conn-reset", "unknown-peer", "accept-no-cer",
            "cer-no-common-app", "dial-refused-sync", "dial-failed-async", "dial-cea-rejected", "dial-cea-timeout",
            "newcomers-while-stopping", "inbound-T-flag-repeats"}
 
@@ -538,6 +554,12 @@ def compare(names, n, kind, rec: Recorder, seed=0):
                           f"{label}: {path} has {a[1]} entries after N={n} and {b[1]} after N={10 * n}")
     if d1 or d2:
         rec.cls("cross:thread-died")
+    for sig_, det_ in list(d1) + list(d2):
+        if "SpinDetected" in sig_:
+            # a worker that loops without ever blocking is a worker that never ends: the kernel's progress guard stops it
+            # here, on a real interpreter it outlives its connection
+            rec.violation(f"C19/grows/<live-threads>/spinning-worker/{names[0] if len(names) == 1 else 'mixed'}", case,
+                          f"{label}: {det_[:300]}")
     nt = n >= 10 and any(nm in FAILING for nm in names)
     rec.case(fp(tuple(names), n, kind) if nt else None,
              [f"N:{n}", f"app:{kind}"] + [f"scenario:{nm}" for nm in names],
